@@ -38,7 +38,7 @@ def getreader(*args, **kwds):
               'First arguments are usually paths') % (args[0],))
 
     if format is None:
-        _myreaders = _readers
+        _myreaders = list(_readers)
         # Try to give preferential treatment based on suffix
         try:
             if len(args) > 0:
